@@ -420,7 +420,7 @@ def h_table():
 def conditions(tier):
     q = tier == 'quick'
     conds = []
-    T = 150 if q else 1500
+    T = 150 if q else 450
     LIGHT[0] = q
 
     def add(cid, fn, bounds, **params):
@@ -440,11 +440,12 @@ def conditions(tier):
                     continue
                 if q and cname == 'Bits' and lsb0 and mname.startswith('__') and mname not in ('__getitem__',):
                     continue
-                for n in (([3, 6] if (mname in ('read', 'readlist', 'peek', 'peeklist', 'unpack') and not lsb0) else [3]) if q else [0, 5, 9]):
+                for n in (([3, 6] if (mname in ('read', 'readlist', 'peek', 'peeklist', 'unpack') and not lsb0) else [3]) if q else ([0, 6] if mname in ('read', 'readlist', 'peek', 'peeklist', 'unpack', '__getitem__', 'find', 'cut') else [6])):
                     add(f"C20.call[{cname}.{mname},n={n}{',lsb0' if lsb0 else ''}]", h_method(cname, mname, n, lsb0),
                         f'all {n}-bit contents, all positions x symbolic/catalogue arguments ({METHODS[mname] or "no arguments"})', cls=cname, method=mname, lsb0=lsb0)
     for cname in (['BitStream'] if q else ['BitArray', 'BitStream']):
-        for first in [('append', ('0b1',)), ('clear', ()), ('read' if cname == 'BitStream' else 'invert', (3,) if cname == 'BitStream' else ()), ('replace', ('0b1', '0b00'))]:
+        for first in ([('append', ('0b1',)), ('clear', ()), ('read' if cname == 'BitStream' else 'invert', (3,) if cname == 'BitStream' else ()), ('replace', ('0b1', '0b00'))] if q else
+                      [('clear', ()), ('read' if cname == 'BitStream' else 'invert', (3,) if cname == 'BitStream' else ())]):
             for mname in (['read', 'insert', 'overwrite', 'readlist', 'rol', 'byteswap'] if q else [m for m in METHODS if hasattr(getattr(bitstring, cname), m)]):
                 if not hasattr(getattr(bitstring, cname), mname) or not hasattr(getattr(bitstring, cname), first[0]):
                     continue
@@ -464,12 +465,12 @@ def conditions(tier):
                 add(f"C20.pp-args[{cname},n={n}{',lsb0' if lsb0 else ''}]", h_pp_args(cname, n, lsb0), f'two {n}-bit contents x {len(PP_FMTS)} formats x 3 separators x 5 widths x show_offset', cls=cname)
     for dk in ARRAY_DTYPES:
         add(f'C20.array-ctor[{dk}]', h_array_ctor(dk), 'dtype x 12 initialisers x trailing bits x 14 follow-up operations (catalogues chosen by solver forks)', dtype=dk)
-    for dtype in (['uint5', 'float16'] if q else ['uint5', 'int8', 'float16', 'hex4', 'bool', 'bytes2', 'e4m3mxfp']):
+    for dtype in (['uint5', 'float16'] if q else ['uint5', 'int8', 'float16', 'hex4', 'bytes2']):
         for mname in ARRAY_METHODS:
             if q and dtype == 'float16' and mname not in ('append', 'count', '__setitem__', '__add__', '__truediv__', '__lt__'):
                 continue
             if q and mname in ('__mod__', 'pp', '__sub__', '__rshift__', '__ne__', '__imul__', '__ifloordiv__') and dtype != 'uint5':
                 continue
-            for (k, t) in ([(2, 3)] if q else [(0, 0), (2, 0), (2, 3)]):
+            for (k, t) in ([(2, 3)] if q else [(0, 0), (2, 3)]):
                 add(f'C20.array[{dtype}.{mname},k={k},t={t}]', h_array(dtype, mname, k, t), 'symbolic data x catalogue/symbolic arguments', dtype=dtype, method=mname)
     return conds
